@@ -24,7 +24,7 @@ import (
 )
 
 // Sigma is the adversarial string set; each is embedded as "a" + s + "b".
-var Sigma = []string{";", "'", "\"", "`", "'q'", "\"q\"", "\\\"", "--", "/*", "*/", "#", "\\", "\n", "$$", "$t$", " BEGIN ", " END; ", ";\n", "\r\n", "\r", "down", " Down ", "StatementBegin", " up ", "\nDELIMITER //\n", "\n-- atlas:delimiter x\n"}
+var Sigma = []string{";", "; -- c", "'", "\"", "`", "'q'", "\"q\"", "\\\"", "--", "/*", "*/", "#", "\\", "\n", "$$", "$t$", " BEGIN ", " END; ", ";\n", "\r\n", "\r", "down", " Down ", "StatementBegin", " up ", "\nDELIMITER //\n", "\n-- atlas:delimiter x\n"}
 
 var Slots = []string{"table", "column", "index", "check_name", "fk_name", "table_comment", "column_comment", "index_comment", "default", "enum_value", "check_literal", "default_dq", "default_raw"}
 
